@@ -7,6 +7,7 @@ import (
 	"math/big"
 	"sort"
 	"strconv"
+	"sync"
 	"sync/atomic"
 
 	"github.com/aclements/go-moremath/mathx"
@@ -182,7 +183,12 @@ func c08BetaClasses(w *mon.W, x, a, b float64) {
 	w.HitIf(a < 1 || b < 1, "beta-param<1")
 }
 
-func c08JudgeBetaInc(w *mon.W, c c08Case) {
+func c08JudgeBetaInc(w *mon.W, c c08Case) { c08JudgeBetaIncRef(w, c, nil) }
+
+// c08JudgeBetaIncRef: as c08JudgeBetaInc; in mode "big", bigRef (if not nil)
+// yields the 384-bit reference value of the case from tables prepared by the
+// caller (the same series as ref.BetaIncBig; a replay recomputes it in full).
+func c08JudgeBetaIncRef(w *mon.W, c c08Case, bigRef func() float64) {
 	x, a, b := float64(c.X), float64(c.A), float64(c.B)
 	if !(x >= 0 && x <= 1 && a >= c08Lo && a <= c08Hi && b >= c08Lo && b <= c08Hi) {
 		return // outside the statement's domain
@@ -229,8 +235,13 @@ func c08JudgeBetaInc(w *mon.W, c c08Case) {
 			w.Violate("BetaInc-value", fmt.Sprintf("%s = %.17g, binomial tail sum gives %.17g (diff %.3g)", name, got, want, got-want), c)
 		}
 	case "big":
-		v, _ := ref.BetaIncBig(x, a, b)
-		want := ref.F64(v)
+		var want float64
+		if bigRef != nil {
+			want = bigRef()
+		} else {
+			v, _ := ref.BetaIncBig(x, a, b)
+			want = ref.F64(v)
+		}
 		if !w.Err("BetaInc-vs-bigfloat-series", math.Abs(got-want), c08Tol) {
 			w.Violate("BetaInc-value", fmt.Sprintf("%s = %.17g, 384-bit series gives %.17g (diff %.3g)", name, got, want, got-want), c)
 		}
@@ -411,7 +422,11 @@ func c08GammaClasses(w *mon.W, a, x float64) {
 	w.HitIf(math.Abs(x-a) <= math.Sqrt(a), "gamma-x-near-mean")
 }
 
-func c08JudgeGammaInc(w *mon.W, c c08Case) {
+func c08JudgeGammaInc(w *mon.W, c c08Case) { c08JudgeGammaIncLg(w, c, nil) }
+
+// c08JudgeGammaIncLg: as c08JudgeGammaInc; lg1 (if not nil) is the 384-bit
+// ln Gamma(a+1) of the case, prepared by the caller for mode "big".
+func c08JudgeGammaIncLg(w *mon.W, c c08Case, lg1 *big.Float) {
 	a, x := float64(c.A), float64(c.X)
 	if !(a >= c08Lo && a <= c08Hi && x >= 0) {
 		return
@@ -484,7 +499,7 @@ func c08JudgeGammaInc(w *mon.W, c c08Case) {
 		p := ref.Sub(ref.NF(1), q)
 		judge("closed-form", what, ref.F64(p), ref.F64(q), "")
 	case "big":
-		p, q := ref.GammaIncBig(a, x)
+		p, q := ref.GammaIncBigLg(a, x, lg1)
 		judge("bigfloat-series", "the 384-bit series", ref.F64(p), ref.F64(q), "")
 	default:
 		var mp, mq float64
@@ -1187,6 +1202,68 @@ func c08GammaGrid(rng *mon.Rand, a float64) []float64 {
 	return c08UniqSorted(out)
 }
 
+// Red-team round 3: deterministic ladders. A defect confined to ONE special
+// parameter pair (one special a for gamma) and a decade or two of x - e.g. a
+// closed form for a = b = 1/2 that forms 2x-1 and loses x below 2^-54 - is hit
+// by the random classes with a probability of a few percent per run. The
+// ladders below are fixed (independent of the seed and of anything the
+// pristine library does): powers of ten down to the smallest denormal, every
+// power of two through the range in which 1-x, 2x-1 and 1+x stop seeing x
+// (2^-40 .. 2^-70), and the mirror images 1-2^-k.
+type c08LadderPt struct {
+	x    float64
+	kind string // 10^-k | 2^-k | 1-2^-k | 2^k | a-relative
+}
+
+func c08BetaLadder() []c08LadderPt {
+	var l []c08LadderPt
+	for _, k := range []int{1, 2, 3, 4, 5, 6, 7, 8, 9, 10, 11, 12, 13, 14, 15, 16, 17, 18, 19, 20,
+		25, 30, 40, 50, 60, 80, 100, 125, 150, 175, 200, 225, 250, 275, 300, 307, 308, 320, 323} {
+		x, _ := strconv.ParseFloat("1e-"+strconv.Itoa(k), 64)
+		l = append(l, c08LadderPt{x, "10^-k"})
+	}
+	for k := 40; k <= 70; k++ {
+		l = append(l, c08LadderPt{math.Ldexp(1, -k), "2^-k"})
+	}
+	for k := 10; k <= 53; k++ {
+		l = append(l, c08LadderPt{1 - math.Ldexp(1, -k), "1-2^-k"})
+	}
+	return l
+}
+
+// c08GammaLadder: the x of one special a.
+func c08GammaLadder(a float64) []c08LadderPt {
+	var l []c08LadderPt
+	for _, p := range c08BetaLadder() {
+		if p.kind != "1-2^-k" {
+			l = append(l, p)
+		}
+	}
+	for k := -39; k <= 12; k++ {
+		l = append(l, c08LadderPt{math.Ldexp(1, k), "2^k"})
+	}
+	for _, k := range []int{-1074, -1022, -500, -200, -100, -80, 16, 20, 30, 53, 100, 500, 1023} {
+		l = append(l, c08LadderPt{math.Ldexp(1, k), "2^k"})
+	}
+	for _, x := range []float64{a, c08Step(a, 1), c08Step(a, -1), a + 1, c08Step(a+1, 1), c08Step(a+1, -1), a - 1, a + 2} {
+		if x > 0 {
+			l = append(l, c08LadderPt{x, "a-relative"})
+		}
+	}
+	return l
+}
+
+// c08Once is a value computed once, by whichever worker needs it first.
+type c08Once[T any] struct {
+	once sync.Once
+	v    T
+}
+
+func (o *c08Once[T]) get(f func() T) T {
+	o.once.Do(func() { o.v = f() })
+	return o.v
+}
+
 // c08Hunt searches for a place where the library steps against a smooth
 // reference, without any assumption on where that might be. e(x) is the
 // difference between the library and the cheap second opinion (mathext) at x
@@ -1293,7 +1370,7 @@ func c08MathextSelfTest() error {
 // run --------------------------------------------------------------------------------
 
 func c08Run(r *mon.Run) {
-	r.Rule("BetaInc on (x,a,b) and GammaInc/GammaIncComp on (a,x) with a,b in [0.05,300] log-uniform plus edges (0.05, <0.1, >250, 300), integers, half-integers; x uniform and concentrated at 0, 1, the mean, the branch switch (a+1)/(a+b+2) resp. a+1 (0, a few ulps, 1e-15..1e-3 either side), tails, tiny/subnormal, for gamma up to a+40*sqrt(a)+40 and out to MaxFloat64. Bulk points judged against mathext with a 384-bit series adjudicator; separate classes judged directly against closed forms (integer a,b; integer and half-integer a) and against the 384-bit series. Laws: range, end points, I_x(a,b)+I_{1-x}(b,a)=1 (x snapped so that 1-x is exact), P+Q=1, monotone on sorted grids including ulp-chains across the switch, NaN rules. Choose/Lchoose: every 0<=k<=n<=1000 plus out-of-range k against big.Int; negative n (every k out of range: 0 / NaN, no panic; k=0 and k=n not judged on value). Parameters also drawn from a list of special values (1, 2, 3, 0.5, 1.5, small integers and half-integers, 0.05, 300, 1 and 2 and 0.5 +- an ulp), in particular for the argument that stays legal in the NaN / outside-domain workloads; x = 0 and x = +Inf (gamma), x = 0 and x = 1 (beta) are end points of every class and grid. Round 2: every monotone grid also carries clusters of closely spaced points (float64 neighbours, 1e-16..1e-9 relative, denormal steps near 0) around centres drawn over the whole x range (uniform, log-uniform 1e-12..1e-6, 1e-6..max, 1e-307..1) and at round numbers (powers of two and ten, roots of the machine epsilon, 1-2^-k), independent of where the pristine library changes branch; hunted grids: from a ladder of points the interval over which (library - mathext) changes most is bisected down to adjacent floats and the last brackets are judged by the same monotonicity law (the search only chooses where to look); a and b (beta) and a (gamma) are drawn in a graded neighbourhood (1e-15..1e-3 relative, either side) of 1, 2, 0.5, integers and half-integers in every accuracy class; x = -0 is a point of BetaInc (value 0, symmetry with x = 1). Beta against a 384-bit Gamma ratio. Sign on specials and random bit patterns. Non-trivial = hits a class; distinct by hash of (op, arguments).")
+	r.Rule("BetaInc on (x,a,b) and GammaInc/GammaIncComp on (a,x) with a,b in [0.05,300] log-uniform plus edges (0.05, <0.1, >250, 300), integers, half-integers; x uniform and concentrated at 0, 1, the mean, the branch switch (a+1)/(a+b+2) resp. a+1 (0, a few ulps, 1e-15..1e-3 either side), tails, tiny/subnormal, for gamma up to a+40*sqrt(a)+40 and out to MaxFloat64. Bulk points judged against mathext with a 384-bit series adjudicator; separate classes judged directly against closed forms (integer a,b; integer and half-integer a) and against the 384-bit series. Laws: range, end points, I_x(a,b)+I_{1-x}(b,a)=1 (x snapped so that 1-x is exact), P+Q=1, monotone on sorted grids including ulp-chains across the switch, NaN rules. Choose/Lchoose: every 0<=k<=n<=1000 plus out-of-range k against big.Int; negative n (every k out of range: 0 / NaN, no panic; k=0 and k=n not judged on value). Parameters also drawn from a list of special values (1, 2, 3, 0.5, 1.5, small integers and half-integers, 0.05, 300, 1 and 2 and 0.5 +- an ulp), in particular for the argument that stays legal in the NaN / outside-domain workloads; x = 0 and x = +Inf (gamma), x = 0 and x = 1 (beta) are end points of every class and grid. Round 2: every monotone grid also carries clusters of closely spaced points (float64 neighbours, 1e-16..1e-9 relative, denormal steps near 0) around centres drawn over the whole x range (uniform, log-uniform 1e-12..1e-6, 1e-6..max, 1e-307..1) and at round numbers (powers of two and ten, roots of the machine epsilon, 1-2^-k), independent of where the pristine library changes branch; hunted grids: from a ladder of points the interval over which (library - mathext) changes most is bisected down to adjacent floats and the last brackets are judged by the same monotonicity law (the search only chooses where to look); a and b (beta) and a (gamma) are drawn in a graded neighbourhood (1e-15..1e-3 relative, either side) of 1, 2, 0.5, integers and half-integers in every accuracy class; x = -0 is a point of BetaInc (value 0, symmetry with x = 1). Round 3: deterministic ladders - every pair of the special parameter values (beta; every special a for gamma) x a fixed ladder of x (10^-k down to 1e-323, every 2^-k for k = 40..70, 1-2^-k for k = 10..53, the decades outside 1e-13..1e-20 on every second pair; for gamma also 2^k, k = -39..12 and further out, and a, a+-ulp, a+-1, a+1+-ulp, a+2), each point judged against the 384-bit series with the stated 1e-9; the fixed points of the monotone grids (1e-17, 1e-100, 1e-300, 5e-324, 1-1e-10, 1-ulp, ... resp. 1e-10, 1e5, 1e308, MaxFloat64, a+40sqrt(a)+40, ...) with parameters drawn as on the grids are also judged for accuracy (mathext + adjudicator, one in 32 directly against the 384-bit series). Beta against a 384-bit Gamma ratio. Sign on specials and random bit patterns. Non-trivial = hits a class; distinct by hash of (op, arguments).")
 	r.Assume("x = NaN is not counted as 'x outside [0,1]' for BetaInc (the statement lists NaN arguments only for the gamma functions)",
 		"x = +Inf is the end point of x >= 0 for GammaInc/GammaIncComp: P = 1, Q = 0 (to 1e-9 in the accuracy and monotone classes, exactly in special-x, as since the D20 repair)",
 		"for n < 0 every k is 'k<0 or k>n': Choose must be 0 and Lchoose NaN, except k == 0 and k == n, where the library documents 1 / 0 and the value is not judged",
@@ -1319,7 +1396,12 @@ func c08Run(r *mon.Run) {
 		"gamma-monotone-close-pair-off-switch", "gamma-monotone-close-pair-small-x", "gamma-monotone-hunted-grid",
 		"beta-param-near-special", "beta-param-within-1e-7-of-special", "beta-param-near-1", "bigfloat-beta-param-near-special",
 		"gamma-a-near-special", "gamma-a-within-1e-7-of-special", "gamma-a-near-1", "bigfloat-gamma-a-near-special",
-		"beta-x=-0")
+		"beta-x=-0",
+		// red-team round 3: deterministic ladders of x on every pair of special parameters; fixed grid points judged for accuracy
+		"beta-special-pair-ladder", "beta-special-pair-x=10^-k", "beta-special-pair-x=2^-k", "beta-special-pair-x=1-2^-k",
+		"beta-special-pair-x-below-2^-53", "beta-special-pair-a=b", "beta-special-pair-a=b=1/2-x-below-2^-53",
+		"gamma-special-a-ladder", "gamma-special-a-x=10^-k", "gamma-special-a-x=2^k", "gamma-special-a-x-relative-to-a", "gamma-special-a-x-below-2^-53",
+		"beta-grid-point-accuracy", "beta-grid-point-accuracy-bigfloat", "gamma-grid-point-accuracy", "gamma-grid-point-accuracy-bigfloat")
 	if err := ref.C08SelfTest(); err != nil {
 		r.Inconclusive("reference self-test failed: " + err.Error())
 		return
@@ -1389,6 +1471,59 @@ func c08Run(r *mon.Run) {
 			return v - m, false
 		})
 		c08JudgeBetaMono(w, c08Case{Op: "betainc-mono", Mode: "hunt", A: mon.F(a), B: mon.F(b), Xs: mon.Fs(xs)})
+	})
+	// every pair of special parameters x the fixed ladder of x, against the 384-bit series
+	{
+		sp := c08SpecialParams
+		lad := c08BetaLadder()
+		lgs := make([]c08Once[*big.Float], len(sp))
+		pairs := make([]c08Once[*ref.BetaABPre], len(sp)*len(sp))
+		pxs := make([]c08Once[*ref.BetaXPre], len(lad))
+		lg := func(k int) *big.Float { return lgs[k].get(func() *big.Float { return ref.LnGamma(ref.NF(sp[k])) }) }
+		// every pair gets every 2^-k, every 1-2^-k and the decades 1e-13..1e-20;
+		// the other decades go to every second pair, alternating (cost)
+		type pl struct{ pi, li int }
+		var cases []pl
+		for pi := range pairs {
+			for li, pt := range lad {
+				if pt.kind == "10^-k" && !(pt.x >= 1e-20 && pt.x <= 1e-13) && (pi+li)%2 == 1 {
+					continue
+				}
+				cases = append(cases, pl{pi, li})
+			}
+		}
+		r.Parallel("betainc-special-ladder", len(cases), func(w *mon.W, i int) {
+			pi, li := cases[i].pi, cases[i].li
+			ia, ib := pi/len(sp), pi%len(sp)
+			a, b, pt := sp[ia], sp[ib], lad[li]
+			w.Hit("beta-special-pair-ladder")
+			w.Hit("beta-special-pair-x=" + pt.kind)
+			w.HitIf(pt.x < 0x1p-53, "beta-special-pair-x-below-2^-53")
+			w.HitIf(a == b, "beta-special-pair-a=b")
+			w.HitIf(a == 0.5 && b == 0.5 && pt.x < 0x1p-53, "beta-special-pair-a=b=1/2-x-below-2^-53")
+			c08JudgeBetaIncRef(w, c08Case{Op: "betainc", Mode: "big", X: mon.F(pt.x), A: mon.F(a), B: mon.F(b)}, func() float64 {
+				pab := pairs[pi].get(func() *ref.BetaABPre { return ref.NewBetaABPre(a, b, lg(ia), lg(ib)) })
+				px := pxs[li].get(func() *ref.BetaXPre { return ref.NewBetaXPre(pt.x) })
+				v, _ := ref.BetaIncBigPre(px, pab)
+				return ref.F64(v)
+			})
+		})
+	}
+	// the fixed points of the monotone grids, judged for accuracy (the grids
+	// themselves judge monotonicity, range and end points only): parameters as
+	// on the grids, bulk against mathext + adjudicator, one in 32 directly
+	// against the 384-bit series
+	betaFixed := []float64{1e-17, 1e-100, 1e-300, 5e-324, 1 - 1e-10, math.Nextafter(1, 0), 0.5, 0, math.Copysign(0, -1), 1}
+	r.Parallel("betainc-grid-points", r.Pick(16_000, 160_000), func(w *mon.W, i int) {
+		a, b := c08GenAB(w.Rng)
+		x := betaFixed[i%len(betaFixed)]
+		mode := "fast"
+		if (i/len(betaFixed))%32 == 0 {
+			mode = "big"
+			w.Hit("beta-grid-point-accuracy-bigfloat")
+		}
+		w.Hit("beta-grid-point-accuracy")
+		c08JudgeBetaInc(w, c08Case{Op: "betainc", Mode: mode, X: mon.F(x), A: mon.F(a), B: mon.F(b)})
 	})
 	outside := []float64{-5e-324, -1e-300, -1e-17, -0.5, -1, -2, -1e300, math.Inf(-1),
 		math.Nextafter(1, 2), 1 + 1e-15, 1.5, 2, 1e300, math.Inf(1)}
@@ -1467,6 +1602,48 @@ func c08Run(r *mon.Run) {
 			return v - m, false
 		})
 		c08JudgeGammaMono(w, c08Case{Op: "gammainc-mono", Mode: "hunt", A: mon.F(a), Xs: mon.Fs(xs)})
+	})
+	// every special a x the fixed ladder of x, against the 384-bit series
+	{
+		sp := c08SpecialParams
+		lads := make([][]c08LadderPt, len(sp))
+		off := make([]int, len(sp)+1)
+		for k, a := range sp {
+			lads[k] = c08GammaLadder(a)
+			off[k+1] = off[k] + len(lads[k])
+		}
+		lg1 := make([]c08Once[*big.Float], len(sp))
+		r.Parallel("gammainc-special-ladder", off[len(sp)], func(w *mon.W, i int) {
+			k := sort.SearchInts(off, i+1) - 1
+			a, pt := sp[k], lads[k][i-off[k]]
+			w.Hit("gamma-special-a-ladder")
+			switch pt.kind {
+			case "10^-k":
+				w.Hit("gamma-special-a-x=10^-k")
+			case "a-relative":
+				w.Hit("gamma-special-a-x-relative-to-a")
+			default:
+				w.Hit("gamma-special-a-x=2^k")
+			}
+			w.HitIf(pt.x < 0x1p-53, "gamma-special-a-x-below-2^-53")
+			c08JudgeGammaIncLg(w, c08Case{Op: "gammainc", Mode: "big", A: mon.F(a), X: mon.F(pt.x)},
+				lg1[k].get(func() *big.Float { return ref.LnGamma(ref.Add(ref.NF(a), ref.NF(1))) }))
+		})
+	}
+	gammaFixed := []float64{1e-10, 1e-100, 1e-300, 5e-324, 1e5, 1e308, math.MaxFloat64, 0, math.Copysign(0, -1), math.Inf(1)}
+	r.Parallel("gammainc-grid-points", r.Pick(16_000, 160_000), func(w *mon.W, i int) {
+		a := c08GenParam(w.Rng)
+		x := gammaFixed[i%len(gammaFixed)]
+		if i%(4*len(gammaFixed)) >= 3*len(gammaFixed) && x == 1e5 {
+			x = c08GammaXMax(a) // the fixed point of the grids that depends on a
+		}
+		mode := "fast"
+		if (i/len(gammaFixed))%32 == 0 {
+			mode = "big"
+			w.Hit("gamma-grid-point-accuracy-bigfloat")
+		}
+		w.Hit("gamma-grid-point-accuracy")
+		c08JudgeGammaInc(w, c08Case{Op: "gammainc", Mode: mode, A: mon.F(a), X: mon.F(x)})
 	})
 	nan := math.NaN()
 	badA := []float64{0, math.Copysign(0, -1), -5e-324, -1e-300, -0.05, -0.5, -1, -2, -300, -1e300, math.Inf(-1)}
